@@ -485,6 +485,7 @@ package connect
 //@ trusted func readOnlyCompressionPools.CommaSeparatedNames(p) res
 //@ trusted func readOnlyCompressionPools.Get(p, name) res
 //@   ensures res != nil ==> supports(p, name)
+//@   ensures name == "" || name == "identity" ==> res == nil
 
 //@ macro offered(accept seq) strlist = fieldsBy(isCommaOrSpace, accept)
 
@@ -1068,3 +1069,46 @@ package connect
 //@   ensures res != nil ==> asErr(res) == res && res.code != 0                                          // label: never-the-zero-code
 //@   ensures old(response.StatusCode) != 200 ==> res != nil && res.code == callres("connectHTTPToCode", 1)   // label: non-200-takes-the-code-from-the-http-status
 //@   ensures res == nil ==> cc.unmarshaler.envelopeReader.readMaxBytes == old(cc.unmarshaler.envelopeReader.readMaxBytes)   // label: keeps-the-read-limit   // tags: C09
+
+// ---------------------------------------------------------------------------
+// handler-side connection setup (C05 headers, C08 coherence, C09 limits, C07 rejection)
+// ---------------------------------------------------------------------------
+
+//@ trusted func readOnlyCodecs.Get(c, name) res
+//@ trusted func readOnlyCodecs.Protobuf(c) res
+//@ trusted func readOnlyCodecs.Names(c) res
+
+//@ func wrapHandlerConnWithCodedErrors(conn) res
+//@   tags C05, C07, C08
+//@   ensures fresh(res)
+//@ func connectCodecFromContentType(streamType, contentType) res
+//@   tags C05, C12
+//@   ensures streamType == 0 && |contentType| >= 12 && contentType[:12] == "application/" ==> res == contentType[12:]
+//@   ensures streamType != 0 && |contentType| >= 20 && contentType[:20] == "application/connect+" ==> res == contentType[20:]
+//@ func grpcCodecFromContentType(web, contentType) res
+//@   tags C05, C12
+//@   ensures !web && contentType == "application/grpc" ==> res == "proto"
+//@   ensures web && contentType == "application/grpc-web" ==> res == "proto"
+//@   ensures !web && |contentType| >= 17 && contentType[:17] == "application/grpc+" ==> res == contentType[17:]
+//@   ensures web && |contentType| >= 21 && contentType[:21] == "application/grpc-web+" ==> res == contentType[21:]
+
+//@ func (*connectHandler).NewConn(h, responseWriter, request) (conn, ok)
+//@   tags C05, C07, C08, C09
+//@   requires h != nil && responseWriter != nil && request != nil && h.protocolHandlerParams.CompressionPools != nil && h.protocolHandlerParams.Codecs != nil
+//@   assigns everything
+//@   ensures callres("negotiateCompression", 1, 2) != nil ==> !ok && called("handlerConnCloser.Close", 1)                 // label: failed-negotiation-closes-the-conn-with-the-error   // tags: C07, C08
+//@   ensures callres("negotiateCompression", 1, 2) == nil ==> ok && conn != nil                                            // label: successful-negotiation-yields-a-conn
+//@   assert@call(wrapHandlerConnWithCodedErrors#1): hdom(rwheader(responseWriter), "Content-Type") && hraw(rwheader(responseWriter), "Content-Type") == [hget(request.Header, "Content-Type")]   // label: content-type-echoes-the-request   // tags: C05
+//@   assert@call(wrapHandlerConnWithCodedErrors#1): typeis(arg0, "*connectStreamingHandlerConn") ==> (let c := cast(arg0, "*connectStreamingHandlerConn") in c.marshaler.envelopeWriter.compressMinBytes == h.protocolHandlerParams.CompressMinBytes && c.marshaler.envelopeWriter.writer == responseWriter && c.marshaler.envelopeWriter.bufferPool == h.protocolHandlerParams.BufferPool && c.unmarshaler.envelopeReader.readMaxBytes == h.protocolHandlerParams.ReadMaxBytes && c.unmarshaler.envelopeReader.reader == request.Body && c.unmarshaler.envelopeReader.bufferPool == h.protocolHandlerParams.BufferPool)   // label: streaming-conn-carries-the-handler's-limits-and-threshold   // tags: C08, C09
+//@   assert@call(wrapHandlerConnWithCodedErrors#1): typeis(arg0, "*connectStreamingHandlerConn") && cast(arg0, "*connectStreamingHandlerConn").marshaler.envelopeWriter.compressionPool != nil ==> hdom(rwheader(responseWriter), "Connect-Content-Encoding") && hraw(rwheader(responseWriter), "Connect-Content-Encoding") == [callres("negotiateCompression", 1, 1)] && callres("negotiateCompression", 1, 1) != "identity"   // label: compressed-flag-only-with-an-encoding-header   // tags: C05, C08
+//@   assert@call(wrapHandlerConnWithCodedErrors#1): typeis(arg0, "*connectUnaryHandlerConn") ==> (let c := cast(arg0, "*connectUnaryHandlerConn") in c.marshaler.compressMinBytes == h.protocolHandlerParams.CompressMinBytes && c.unmarshaler.readMaxBytes == h.protocolHandlerParams.ReadMaxBytes && c.unmarshaler.reader == request.Body && c.marshaler.compressionName == callres("negotiateCompression", 1, 1))   // label: unary-conn-carries-the-handler's-limits-and-threshold   // tags: C08, C09
+
+//@ func (*grpcHandler).NewConn(g, responseWriter, request) (conn, ok)
+//@   tags C05, C07, C08, C09
+//@   requires g != nil && responseWriter != nil && request != nil && g.protocolHandlerParams.CompressionPools != nil && g.protocolHandlerParams.Codecs != nil
+//@   assigns everything
+//@   ensures callres("negotiateCompression", 1, 2) != nil ==> !ok && called("handlerConnCloser.Close", 1)                 // label: failed-negotiation-closes-the-conn-with-the-error   // tags: C07, C08
+//@   ensures callres("negotiateCompression", 1, 2) == nil ==> ok && conn != nil                                            // label: successful-negotiation-yields-a-conn
+//@   assert@call(wrapHandlerConnWithCodedErrors#1): hdom(rwheader(responseWriter), "Content-Type") && hraw(rwheader(responseWriter), "Content-Type") == [hget(request.Header, "Content-Type")]   // label: content-type-echoes-the-request   // tags: C05
+//@   assert@call(wrapHandlerConnWithCodedErrors#1): let c := cast(arg0, "*grpcHandlerConn") in c.marshaler.envelopeWriter.compressMinBytes == g.protocolHandlerParams.CompressMinBytes && c.marshaler.envelopeWriter.writer == responseWriter && c.unmarshaler.envelopeReader.readMaxBytes == g.protocolHandlerParams.ReadMaxBytes && c.unmarshaler.envelopeReader.reader == request.Body && c.web == g.web && c.unmarshaler.web == g.web   // label: conn-carries-the-handler's-limits-and-threshold   // tags: C08, C09
+//@   assert@call(wrapHandlerConnWithCodedErrors#1): cast(arg0, "*grpcHandlerConn").marshaler.envelopeWriter.compressionPool != nil ==> hdom(rwheader(responseWriter), "Grpc-Encoding") && hraw(rwheader(responseWriter), "Grpc-Encoding") == [callres("negotiateCompression", 1, 1)] && callres("negotiateCompression", 1, 1) != "identity"   // label: compressed-flag-only-with-an-encoding-header   // tags: C05, C08
